@@ -19,6 +19,10 @@ of code whose correctness is visible in their shape; those are decided:
                constraint rows by `row.master->elt->primary` (a many-to-one projection) must visit all matching rows - it may
                not leave at the first match - and must copy the uncertainty of every solution; the sibling loop that matches
                rows by identity (`row.master`) may stop at its single match
+  C18.init     the sign-constraint vector is zeroed before anything is written into it: in setup_inverse the zero-fill of `delta`
+               precedes every store into delta[...] (the epsilon loop stores a +1 for an element that is absent from a solution,
+               so that only positive adjustments are allowed; a later zero-fill erases it and the adjustment loses its lower
+               bound)
 Not decided: mole balance of every element within the uncertainties, the min..max ranges, which subsets the search visits
 (all outcomes of the solver).
 """
@@ -184,6 +188,7 @@ def run(P, R, tier):
         R.anchor_missing("C18.sign", "switch over the phase constraint (model file) not found")
 
     spread_rule(P, R)
+    init_rule(P, R)
     # ------------------------------------------------------------------ set predicates
     R.rule("C18.sets", "superset_minimal / subset_bad / subset_minimal test the inclusions their names state", minimum=3)
     for q, store, kind in (("superset_minimal", "minimal", "super"), ("subset_bad", "bad", "sub"), ("subset_minimal", "minimal", "sub")):
@@ -261,3 +266,27 @@ def spread_rule(P, R):
                 R.violation("C18.spread", inst + ":solutions", "the declared uncertainties are not copied for every solution (loop bound `%s`)" % (T.text(inner[0][3]) if inner else "?"), line=st[1], **where)
     if n == 0:
         R.anchor_missing("C18.spread", "tidy_inverse: the loop matching rows by elt->primary was not found")
+
+
+def init_rule(P, R):
+    R.rule("C18.init", "setup_inverse zero-fills the sign-constraint vector before the first store into it", minimum=1)
+    f = P.one("Phreeqc::setup_inverse")
+    fills = []
+    stores = []
+    for x in T.walk(f["body"]):
+        if x[0] == "Call" and T.callee_name(x) == "memcpy" and x[4]:
+            dst = T.text(x[4][0]).replace(" ", "")
+            if "delta" in dst and "min_delta" not in dst and "max_delta" not in dst and "delta1" not in dst and "delta2" not in dst and "inv_zero" in T.text(x[4][1]):
+                fills.append(x[1])
+        if x[0] == "Bin" and x[2] == "=":
+            t = T.text(x[3]).replace(" ", "")
+            if t.startswith("operator[](delta,") or t.startswith("delta["):
+                stores.append(x[1])
+    if not fills or not stores:
+        R.anchor_missing("C18.init", "setup_inverse: zero-fill (%d) / stores (%d) of delta not found" % (len(fills), len(stores)))
+        return
+    if max(fills) < min(stores):
+        R.ok("C18.init", "setup_inverse:delta", "zero-filled at line %d, first store at line %d" % (max(fills), min(stores)))
+    else:
+        R.violation("C18.init", "setup_inverse:delta", "the sign-constraint vector is zero-filled at line %d after a store at line %d: the `only positive adjustments` constraint of an element "
+                    "absent from a solution is erased" % (max(fills), min(stores)), file=f["file"], line=max(fills), function=f["q"])
